@@ -10,7 +10,7 @@ Import ListNotations.
    loop ends in an error (T starts with a blank: see the class lemmas of D16r, D17r, D18r) *)
 Definition bad_alt (B : str) : Prop := exists name q T, B = name ++ qual_text q ++ T /\
   name <> [] /\ forallb namec name = true /\ eqc (peek name) 36 = false /\
-  (match q with None => True | Some a => forallb mac (arch_string a) = true /\ parse_arch (arch_string a) = a end) /\
+  (match q with None => True | Some a => forallb mac (arch_string a) = true /\ parse_arch (arch_string a) = a /\ arch_ok (arch_string a) = true end) /\
   is_ws (peek T) = true /\ evRes (fun f => controllers f (base name q) T) Err.
 
 Lemma bad_alt_head B : bad_alt B -> is_ws (peek B) = false /\ eqc (peek B) 0 = false /\ eqc (peek B) 44 = false /\ eqc (peek B) 124 = false.
@@ -51,7 +51,7 @@ Record alt_okR (t : str) (p : possi) : Prop := {
   alt_headR : exists c t', t = c :: t' /\ is_ws c = false /\ eqc c 0 = false /\ eqc c 44 = false /\ eqc c 124 = false }.
 
 Lemma alt_freeR name q cl : name <> [] -> forallb namec name = true -> eqc (peek name) 36 = false ->
-  (match q with None => True | Some a => forallb mac (arch_string a) = true /\ parse_arch (arch_string a) = a end) ->
+  (match q with None => True | Some a => forallb mac (arch_string a) = true /\ parse_arch (arch_string a) = a /\ arch_ok (arch_string a) = true end) ->
   clauses_ok (base name q) cl -> alt_okR (name ++ qual_text q ++ clauses_text cl) (result name q cl).
 Proof.
   intros Hne Hc Hd Ha W.
